@@ -1,6 +1,6 @@
 """C14 — Declared exports match what the bundler loader exports at runtime."""
 import harness
-from facts import norm, call_name, short, subnodes, lit_value, field_reads
+from facts import norm, call_name, short, subnodes, lit_value, field_reads, peel_ty
 from prov import Prov, has_field, has_call
 from emit import emission
 from templates import enclosing_contexts
@@ -113,6 +113,33 @@ def _cfg_fields(atoms):
     return out
 
 
+CONFIG_T = "nitrogql_config_file::config::Config"
+
+
+def cfg_ctors(P, adt):
+    """the constructors of an options struct by role: functions from `&Config` to the struct, whether an inherent `from_config`,
+    a `From<&Config>` impl or a thin wrapper around either"""
+    return [f for f in P.fns.values() if _usable(f) and [peel_ty(t).strip().split("<")[0] for t in f.sig_inputs] == [CONFIG_T]
+            and _adt_of_type(P, f.sig_output) == adt]
+
+
+def builds_from_config(P, pv, e, adt):
+    """does expression `e` contain a call that turns the config into `adt` — one of its constructors, or a `From`/`Into` conversion
+    whose result type is `adt` — applied to (something derived from) a `&Config` parameter"""
+    ctors = {f.path for f in cfg_ctors(P, adt)}
+    cfg_params = {name for lid, name in pv.params.items()}
+    for n in subnodes(e):
+        if n.get("k") not in ("Call", "MethodCall") or _adt_of_type(P, n.get("t")) != adt:
+            continue
+        c = call_name(n) or ""
+        conv = norm(n.get("callee") or "") in ("core::convert::Into::into", "core::convert::From::from")
+        if c in ctors or conv:
+            args = ([n["recv"]] if n.get("k") == "MethodCall" else []) + n["args"]
+            if any(_adt_of_type(P, a.get("t")) == CONFIG_T and any(x[0] == "param" and x[1] in cfg_params for x in pv.atoms(a)) for a in args):
+                return True
+    return False
+
+
 def r14a(P, R):
     from templates import inlined
     _P[0] = P
@@ -126,69 +153,99 @@ def r14a(P, R):
             R.check("R14-a", "driver:" + e.name, driver.path in P.reachable([e]), "runs the shared OperationPrinter::print_document",
                     "%s does not run the shared traversal OperationPrinter::print_document" % e.path, loc=e.loc())
 
+    def side_option_adts():
+        """the options struct of each printer: the first parameter type of its entry point"""
+        out = []
+        for entry in (PR + "operation_type_printer::print_types_for_operation_document", JS_ENTRY):
+            e = P.fn(entry)
+            a = _adt_of_type(P, e.sig_inputs[0]) if e.sig_inputs else None
+            if a is None:
+                from facts import AnchorMissing
+                raise AnchorMissing("options parameter of %s" % entry)
+            out.append(a)
+        return out
+
     def base_options():
-        base_fc = P.fn(BASEOPT + "::from_config")
-        for name in ("operation_type_printer::visitor::OperationTypePrinterOptions::from_config",
-                     "operation_js_printer::options::OperationJSPrinterOptions::from_config"):
-            f0 = P.fn(PR + name)
-            f = inlined(P, f0, pred=stable_pred(lambda g: g.path != base_fc.path))
-            pv = Prov(f)
-            lits = [n for n in f.walk() if n.get("k") == "Struct" and "rest" not in n and norm(n.get("adt")) == f0.self_adt]
-            ok = False
-            for l in lits:
-                for fld in l["fields"]:
-                    a = pv.deep_atoms(fld["e"])
-                    if _adt_of_type(P, P.adts[f0.self_adt].field_types().get(fld["name"])) == BASEOPT and has_call(a, "OperationBasePrinterOptions::from_config") \
-                            and ("param", "config") in a:
-                        ok = True
-            if not lits:
-                R.undecided("R14-a", "base-options:" + short(f0.path), "%s builds its result without a struct literal; where the base options come "
-                            "from is not decided on this shape" % f0.path, loc=f0.loc())
-            else:
-                R.check("R14-a", "base-options:" + short(f0.path), ok, "base options come from OperationBasePrinterOptions::from_config(config)",
-                        "%s does not take its base options from OperationBasePrinterOptions::from_config(config)" % f0.path, loc=f0.loc())
-            # the shared options are decided by the shared from_config alone: a side that writes one of them itself derives it from
-            # other config leaves than the other side does
-            own = wiring_of(P, f0, BASEOPT, pred=stable_pred(lambda g: g.path != base_fc.path and not (g.impl_trait or "").endswith("default::Default")))
-            for fld, leaves in sorted(own.items()):
-                R.violated("R14-a", "base-options-override:%s@%s" % (fld, short(f0.path)),
-                           "%s writes the shared base option `%s` itself, on top of OperationBasePrinterOptions::from_config: on this side the option no "
-                           "longer derives from the same config keys as on the other printer's side (which takes it from the shared from_config "
-                           "alone), so the declaration file and the JS module name/export differently for some configurations" % (f0.path, fld), loc=f0.loc())
-            if not own:
-                R.holds("R14-a", "base-options-override:" + short(f0.path), "no shared base option is written outside OperationBasePrinterOptions::from_config", loc=f0.loc())
+        base_ctors = {f.path for f in cfg_ctors(P, BASEOPT)}
+        if not base_ctors:
+            from facts import AnchorMissing
+            raise AnchorMissing("a constructor of OperationBasePrinterOptions from &Config")
+        not_base = stable_pred(lambda g: g.path not in base_ctors and not (g.impl_trait or "").endswith("default::Default"))
+        for adt in side_option_adts():
+            ctors = cfg_ctors(P, adt)
+            if not ctors:
+                R.undecided("R14-a", "base-options:" + adt.split("::")[-1], "no function from &Config to `%s` was found" % adt)
+                continue
+            for f0 in ctors:
+                f = inlined(P, f0, pred=not_base)
+                pv = Prov(f)
+                lits = [n for n in f.walk() if n.get("k") == "Struct" and "rest" not in n and norm(n.get("adt")) == adt]
+                ok = any(_adt_of_type(P, P.adts[adt].field_types().get(fld["name"])) == BASEOPT and builds_from_config(P, pv, fld["e"], BASEOPT)
+                         for l in lits for fld in l["fields"])
+                if not lits:
+                    R.undecided("R14-a", "base-options:" + short(f0.path), "%s builds its result without a struct literal; where the base options come "
+                                "from is not decided on this shape" % f0.path, loc=f0.loc())
+                else:
+                    R.check("R14-a", "base-options:" + short(f0.path), ok, "base options come from the shared constructor of OperationBasePrinterOptions applied to the config",
+                            "%s does not take its base options from OperationBasePrinterOptions::from_config(config) (or the equivalent From<&Config>)" % f0.path, loc=f0.loc())
+                # the shared options are decided by the shared constructor alone: a side that writes one of them itself derives it from
+                # other config leaves than the other side does
+                own = wiring_of(P, f0, BASEOPT, pred=not_base)
+                for fld, leaves in sorted(own.items()):
+                    R.violated("R14-a", "base-options-override:%s@%s" % (fld, short(f0.path)),
+                               "%s writes the shared base option `%s` itself, on top of OperationBasePrinterOptions::from_config: on this side the option no "
+                               "longer derives from the same config keys as on the other printer's side (which takes it from the shared from_config "
+                               "alone), so the declaration file and the JS module name/export differently for some configurations" % (f0.path, fld), loc=f0.loc())
+                if not own:
+                    R.holds("R14-a", "base-options-override:" + short(f0.path), "no shared base option is written outside OperationBasePrinterOptions::from_config", loc=f0.loc())
 
     # both front ends derive their options from the config they were given
     def loader():
         js_entry = P.fn(JS_ENTRY)
+        js_adt = _adt_of_type(P, js_entry.sig_inputs[0]) if js_entry.sig_inputs else None
         lp0 = P.fn("graphql_loader::js_printer::print_js")
         lp = inlined(P, lp0)
         pv = Prov(lp)
         calls = [c for c in lp.walk() if c.get("k") == "Call" and call_name(c) == js_entry.path and c["args"]]
-        if not calls:
+        if not calls or js_adt is None:
             R.undecided("R14-a", "loader-options", "%s does not call %s directly or through a same-crate helper" % (lp0.path, js_entry.path), loc=lp0.loc())
         else:
-            a = pv.deep_atoms(calls[0]["args"][0])
-            ok = has_call(a, "OperationJSPrinterOptions::from_config") and ("param", "config") in a
-            R.check("R14-a", "loader-options", ok, "the loader prints with OperationJSPrinterOptions::from_config(config)",
+            # the options argument, wherever it was computed in print_js
+            srcs = [calls[0]["args"][0]]
+            arg = calls[0]["args"][0]
+            if arg.get("k") == "Path" and "local" in arg:
+                srcs += [src for src, _ in pv.src.get(arg["local"], []) if src is not None]
+            ok = any(builds_from_config(P, pv, e, js_adt) for e in srcs)
+            R.check("R14-a", "loader-options", ok, "the loader prints with the JS printer options built from the config it was given",
                     "graphql-loader does not derive its printer options from the config", loc=lp0.loc())
 
     def cli():
+        ts_entry = P.fn(PR + "operation_type_printer::print_types_for_operation_document")
+        ts_adt = _adt_of_type(P, ts_entry.sig_inputs[0]) if ts_entry.sig_inputs else None
         go0 = P.fn("nitrogql_cli::generate::generate_operation_type_printer_options")
         go = inlined(P, go0)
         pv = Prov(go)
-        fcs = [c for c in go.walk() if c.get("k") == "Call" and (call_name(c) or "").endswith("OperationTypePrinterOptions::from_config") and c["args"]]
-        if not fcs:
-            R.violated("R14-a", "cli-options", "%s never calls OperationTypePrinterOptions::from_config: the CLI does not derive its operation "
-                       "printer options from the config" % go0.path, loc=go0.loc())
+        if ts_adt is None:
+            R.undecided("R14-a", "cli-options", "the options type of the declaration printer was not located", loc=go0.loc())
+        elif builds_from_config(P, pv, go.body, ts_adt):
+            R.holds("R14-a", "cli-options", "the CLI prints with the declaration printer options built from the config it was given", loc=go0.loc())
+        elif any(c.get("k") in ("Call", "MethodCall") and _adt_of_type(P, c.get("t")) == ts_adt and
+                 ((call_name(c) or "") in {f.path for f in cfg_ctors(P, ts_adt)} or norm(c.get("callee") or "") in ("core::convert::Into::into", "core::convert::From::from"))
+                 for c in go.walk()):
+            R.violated("R14-a", "cli-options", "the CLI builds its operation printer options from a config other than the one it was given", loc=go0.loc())
         else:
-            R.check("R14-a", "cli-options", any(("param", "config") in pv.deep_atoms(c["args"][0]) for c in fcs),
-                    "the CLI prints with OperationTypePrinterOptions::from_config(config)",
-                    "the CLI does not derive its operation printer options from the config it was given", loc=go0.loc())
+            R.violated("R14-a", "cli-options", "%s never builds the operation printer options from the config (no constructor from &Config is called): "
+                       "the CLI does not derive its operation printer options from the config" % go0.path, loc=go0.loc())
 
     # T10 wiring of the shared options
     def wiring():
-        base_fc = P.fn(BASEOPT + "::from_config")
+        base_fc = P.fn(BASEOPT + "::from_config", required=False)
+        if base_fc is None:
+            cs = cfg_ctors(P, BASEOPT)
+            if len(cs) != 1:
+                from facts import AnchorMissing
+                raise AnchorMissing("the constructor of OperationBasePrinterOptions from &Config (%s)" % [c.path for c in cs])
+            base_fc = cs[0]
         w = wiring_of(P, base_fc, BASEOPT)
         adt = P.adt(BASEOPT)
         for fld in adt.fields():
